@@ -50,7 +50,7 @@ ANCHORS = ['pfhedge.instruments.derivative.base:BaseDerivative.simulate',
            'pfhedge.instruments.primary.local_volatility:LocalVolatilityStock.simulate']
 PYTEST_WORKLOAD = True  # thorough tier also runs /repo/tests with these passive monitors attached (DESIGN.md 2.7)
 DECIDING = ["grid.n_points", "grid.derivative_simulate", "ttm.values"]
-REQUIRED_BRANCHES = ["ratio.integer", "ratio.non_integer", "ttm.negative_index"]
+REQUIRED_BRANCHES = ["derivative.two_underliers", "resimulated_other_maturity", "ratio.integer", "ratio.non_integer", "ttm.negative_index"]
 
 _CTX = None
 PRIMS = ["brownian", "heston", "cir", "vasicek", "merton", "kou", "rbergomi", "localvol"]
@@ -173,6 +173,19 @@ def write_maturity(rng, dt, n, k):
     return (k - 1e-5) * dt, way, None
 
 
+class Spread(BaseDerivative):
+    """A user derivative on two underliers (each must be simulated over the derivative's maturity on its own step size)."""
+
+    def __init__(self, u1, u2, maturity):
+        super().__init__()
+        self.register_underlier("u1", u1)
+        self.register_underlier("u2", u2)
+        self.maturity = maturity
+
+    def payoff_fn(self):
+        return torch.relu(self.u1.spot[:, -1] - self.u2.spot[:, -1])
+
+
 def drv_sweep(ctx, k, rng):
     dt, n = DTS[k % len(DTS)]
     kk = int(pick(rng, [1, 2, 3, 4, 5, 6, 7, 10, 20, 21, 30, 60, 125, 250, 400])) if rng.random() < 0.5 else int(rng.integers(1, 401))
@@ -188,6 +201,12 @@ def drv_sweep(ctx, k, rng):
         prim = make_primary(kind, dt, dtype)
         d = EuropeanOption(prim, maturity=M)
         d.simulate(n_paths=int(pick(rng, [1, 2])))  # judged by both passive contracts
+    if kk <= 60 and rng.random() < 0.4:
+        # every underlier of a multi-underlier derivative is simulated over the derivative's maturity (judged by the passive contract)
+        dt2, _ = DTS[int(rng.integers(len(DTS)))]
+        sp = Spread(make_primary(pick(rng, ["brownian", "merton", "kou"]), dt), make_primary(pick(rng, ["brownian", "heston", "vasicek"]), dt2), M)
+        sp.simulate(n_paths=2)
+        ctx.branch("derivative.two_underliers")
     if k < 6:
         ctx.sample({"driver": "sweep", "dt": dt, "k": kk, "way": way, "maturity": M, "primaries": kinds,
                     "points": list(prim.spot.shape)})
@@ -248,6 +267,20 @@ def drv_ttm(ctx, k, rng):
     ok = hedge.shape == (N, 1, T) and feats.shape == (N, T, 4) and pay.shape == (N,) and hedger.get_input(d, T - 1).shape == (N, 1, 4)
     ctx.check(mon, ok, "consumer_shapes", f"hedge {tuple(hedge.shape)}, features {tuple(feats.shape)}, payoff {tuple(pay.shape)} for N={N}, T={T}",
               sig=sig)
+    # the same stock under a second option of another maturity (same path count): every consumer must move to the new grid
+    k2 = int(pick(rng, [1, 2, 4, 7, 11]))
+    d2 = P.make_derivative(rng, stock, pick(rng, P.OPTIONS), maturity=k2 * dt)
+    _ = stock.volatility, stock.variance
+    d2.simulate(n_paths=N)
+    T2 = stock.spot.shape[1]
+    ctx.seen(mon)
+    hedge2 = hedger.compute_hedge(d2)
+    feats2 = hedger.get_input(d2, None)
+    ok2 = (hedge2.shape == (N, 1, T2) and feats2.shape == (N, T2, 4) and stock.volatility.shape == (N, T2) and stock.variance.shape == (N, T2)
+           and d2.time_to_maturity().shape == (N, T2) and d2.payoff().shape == (N,))
+    ctx.check(mon, ok2, "consumer_shapes_after_resimulation", f"after re-simulating the same stock for a maturity of {k2} steps (was {T - 1}): hedge {tuple(hedge2.shape)}, "
+              f"features {tuple(feats2.shape)}, volatility {tuple(stock.volatility.shape)} for N={N}, T={T2}", sig=sig + ("resim",))
+    ctx.branch("resimulated_other_maturity")
     if k < 3:
         ctx.sample({"driver": "ttm", "dt": dt, "maturity": M, "T": T, "ttm_row0": full[0]})
 
